@@ -38,7 +38,7 @@
    with the left-to-right result computed by the functional definition
    RefExpand), PrintedFaithful (C19) and <>Finished under weak fairness.
    Generation (Macro_gen.cfg): one NDJSON line per finished behaviour.      *)
-EXTENDS Integers, Sequences, SequencesExt, FiniteSets, TLC, Json, CSV, IOUtils, MacroFamilies
+EXTENDS Integers, Sequences, SequencesExt, FiniteSets, TLC, Json, CSV, IOUtils, MacroFamilies, HideSet
 
 CONSTANTS Family,     \* "F1" .. "F6", "P", "PT" : which enumerated family of inputs
           Seed, Stride, \* quick tier: only cases with (idx * 31 + Seed) % Stride = 0
@@ -258,7 +258,7 @@ ExpandObj ==
   /\ Expandable(T0) /\ ~Def(cs, T0.s).fun
   /\ LET m == Def(cs, T0.s)
          r == SubstBody(m, m.body, <<>>, <<>>, FALSE)
-         res == AddHS(r.out, T0.hs \cup {T0.s})
+         res == AddHS(r.out, ObjHS(T0.hs, T0.s))
      IN /\ stack' = SetTop([Top EXCEPT !.inp = Splice(res, Tail(Top.inp), T0)])
         /\ flags' = flags \cup (IF r.undef THEN {"undef"} ELSE {}) \cup (IF r.pmpm THEN {"pmpm"} ELSE {})
                           \cup (IF \E i \in DOMAIN m.body : m.body[i].s = "##" THEN {"objpaste"} ELSE {})
@@ -289,10 +289,10 @@ CollectArgs ==
          a == Args(m, Top.inp, c)
          inter == T0.hs \cap Top.inp[c].hs
      IN /\ a.ok
-        /\ \E H \in (IF Unspec /\ inter # T0.hs THEN {inter, T0.hs} ELSE {inter}) :
+        /\ \E R \in (IF Unspec /\ inter # T0.hs THEN {Top.inp[c].hs, T0.hs} ELSE {Top.inp[c].hs}) :   \* R = hs(T): the other conforming choice
              stack' = SetTop([Top EXCEPT !.inp = SubSeq(Top.inp, c + 1, Len(Top.inp)),
                                          !.call = [on |-> TRUE, name |-> T0.s,
-                                                   hs |-> IF HideFix THEN H \cup {T0.s} ELSE H, sp |-> T0.sp,
+                                                   hs |-> IF HideFix THEN FunHS(T0.hs, R, T0.s) ELSE T0.hs \cap R, sp |-> T0.sp,
                                                    raw |-> a.raw, exp |-> [p \in 1..Len(a.raw) |-> <<>>],
                                                    todo |-> {p \in 1..Len(a.raw) : NeedExp(m, p) /\ a.raw[p] # <<>>},
                                                    cur |-> 0, omitted |-> a.omitted]])
